@@ -7,4 +7,5 @@ export GOFLAGS=-mod=mod GOPROXY=off
 (cd lean && lake build)
 (cd extract && go build -o /dev/null .)
 (cd harness && go build -tags verif -o /dev/null .)
+(cd overlaygen && go build -o /dev/null .)
 echo "setup ok"
